@@ -12,7 +12,7 @@ func init() {
 	register(&Spec{
 		ID:          "C04",
 		Loads:       []LoadSpec{{Patterns: []string{"./lnwallet", "./chanstate", "./channeldb", "./contractcourt"}}},
-		Explanation: "Decides that every reconstruction of a remote commitment's scripts (output-index search at revocation time, breach retribution, unilateral close) passes the arguments of the construction site as seen from the remote owner (negated initiator flag, remote CSV delay, keys of the remote key ring, uniform lease-expiry selection); that the output indexes found before the state advance are persisted in (ours, theirs) order together with the outgoing remote commitment inside the revocation transaction; that the revocation-log TLV structs are well formed and carry every field the retribution reads; that only dust HTLCs are skipped; that the state is advanced only after the secret was accepted and matches the current commitment point; that the state-hint obfuscator is derived initiator-first everywhere; that amounts come from the breach transaction only below the index bound check; and that the breach arbitrator assigns a witness type in every case.",
+		Explanation: "Decides that every reconstruction of a remote commitment's scripts (output-index search at revocation time, breach retribution, unilateral close) passes the arguments of the construction site as seen from the remote owner (negated initiator flag, remote CSV delay, keys of the remote key ring, uniform lease-expiry selection); that the output indexes found before the state advance are persisted in (ours, theirs) order together with the outgoing remote commitment inside the revocation transaction; that the revocation-log TLV structs are well formed and carry every field the retribution reads; that only dust HTLCs are skipped; that the state is advanced only after the secret was accepted and matches the current commitment point; that the state-hint obfuscator is derived initiator-first everywhere; that amounts come from the breach transaction only below the index bound check; and that the breach arbitrator assigns a witness type in every case; that the retribution store and the arbitrator use a looked-up bucket or the first breached output only where it exists; that nothing in contractcourt writes into a breach retribution it hands on; that the HTLC entry list of a revocation log ends only at an entry boundary; and that every witness type given to the node's own CSV-encumbered output is in the table that yields the justice input's sequence.",
 		NotDecided: []string{
 			"script-interpreter validity of the justice transaction (needs the script engine)",
 			"which witness-type constant is right for which channel type", "amount equality with the actual revoked transaction",
@@ -150,21 +150,46 @@ func runC04(r *an.Run) {
 		})
 
 	r.Obl("revocation-records-indexes-and-outgoing-commitment", "PATH",
-		"ReceiveRevocation computes findOutputIndexesFromRemote before AdvanceCommitChainTail and passes its two results in (ours, theirs) order; inside findOutputIndexesFromRemote the to_remote script match sets our index and the to_local match their index; the store passes the outgoing channel.RemoteCommitment and the indexes unchanged to putRevocationLog, which stores them as OurOutputIndex/TheirOutputIndex and the balances as Local->Our, Remote->Their",
-		"indexes or balances recorded crosswise make the justice transaction sign for the wrong outputs", 8,
+		"ReceiveRevocation computes findOutputIndexesFromRemote before the state advance (OpenChannel.AdvanceCommitChainTailWithRevocation) and passes its two results in (ours, theirs) order, after the forwarding package and the pending local updates; that method hands the channel itself, the forwarding package, the updates and the two indexes unchanged and in this order to Db.AdvanceCommitChainTail; inside findOutputIndexesFromRemote the to_remote script match sets our index and the to_local match their index; the store passes the outgoing channel.RemoteCommitment and the indexes unchanged to putRevocationLog, which stores them as OurOutputIndex/TheirOutputIndex and the balances as Local->Our, Remote->Their",
+		"indexes or balances recorded crosswise make the justice transaction sign for the wrong outputs", 12,
 		func(o *an.Obl) {
 			f := p.Func(lw + "LightningChannel.ReceiveRevocation")
 			find := f.Calls(an.CalleeIs(lw+"findOutputIndexesFromRemote"), false)
-			adv := f.Calls(an.CalleeIs("chanstate.OpenChannel.AdvanceCommitChainTail"), false)
-			if need(o, f, "findOutputIndexesFromRemote", find, 1) && need(o, f, "AdvanceCommitChainTail", adv, 1) {
+			adv := f.Calls(an.CalleeIs("chanstate.OpenChannel.AdvanceCommitChainTailWithRevocation", "chanstate.OpenChannel.AdvanceCommitChainTail"), false)
+			if need(o, f, "findOutputIndexesFromRemote", find, 1) && needExactly(o, f, "state advance (AdvanceCommitChainTailWithRevocation)", adv, 1) {
 				mustPass(o, f, "findOutputIndexesFromRemote", find, an.OkErrNil, adv)
 				a := f.ArgCanon(adv[0])
-				if !strings.HasPrefix(a[2], "lnwallet.findOutputIndexesFromRemote(") || strings.HasSuffix(a[2], "#1") || !strings.HasSuffix(a[3], "#1") {
-					o.FailAt(f.ID+"#index-order", adv[0].Where(), "AdvanceCommitChainTail must receive (ourOutputIndex, theirOutputIndex) = results 0 and 1 of findOutputIndexesFromRemote; got (%s, %s)", a[2], a[3])
+				// the two indexes are the last two arguments of either form
+				k := len(a) - 2
+				if k < 2 || !strings.HasPrefix(a[k], "lnwallet.findOutputIndexesFromRemote(") || strings.HasSuffix(a[k], "#1") || !strings.HasPrefix(a[k+1], "lnwallet.findOutputIndexesFromRemote(") || !strings.HasSuffix(a[k+1], "#1") {
+					o.FailAt(f.ID+"#index-order", adv[0].Where(), "the state advance must receive (ourOutputIndex, theirOutputIndex) = results 0 and 1 of findOutputIndexesFromRemote as its last two arguments; got %v", a)
 				}
 				fa := f.ArgCanon(find[0])
 				if !strings.Contains(fa[0], "Revocation[:]") || fa[1] != "$recv.channelState" {
 					o.FailAt(f.ID+"#find-args", find[0].Where(), "findOutputIndexesFromRemote must be given the revealed secret and the channel state; got %v", fa[:2])
+				}
+			}
+			// the chanstate method forwards what it was given
+			m := p.Func("chanstate.OpenChannel.AdvanceCommitChainTailWithRevocation")
+			mdb := m.Calls(an.CalleeNamed("AdvanceCommitChainTail"), true)
+			if needExactly(o, m, "Db.AdvanceCommitChainTail call", mdb, 1) {
+				a := m.ArgCanon(mdb[0])
+				want := []string{"$recv", "$p2", "$p3", "$p4", "$p5"}
+				if strings.Join(a, ", ") != strings.Join(want, ", ") {
+					o.FailAt(m.ID+"#forwarded-args", mdb[0].Where(), "Db.AdvanceCommitChainTail receives (%s), expected the channel, the forwarding package, the updates and (ourOutputIndex, theirOutputIndex) unchanged: (%s)", strings.Join(a, ", "), strings.Join(want, ", "))
+				}
+				if c := m.Canon(mdb[0].Node.(*ast.CallExpr).Fun); c != "$recv.Db.AdvanceCommitChainTail" {
+					o.FailAt(m.ID+"#forwarded-to", mdb[0].Where(), "the durable advance goes to %s, expected the channel's own store ($recv.Db)", c)
+				}
+				for _, arg := range mdb[0].Node.(*ast.CallExpr).Args {
+					c04OperandsNotOverwritten(o, m, arg, "forwarded argument")
+				}
+				// and its caller's argument order matches the parameter roles
+				if len(adv) == 1 && strings.HasSuffix(an.CalleeID(f.Info(), adv[0].Node.(*ast.CallExpr)), "WithRevocation") {
+					ps := m.Params(false)
+					if len(ps) != 6 || ps[4].Name() != "ourOutputIndex" || ps[5].Name() != "theirOutputIndex" {
+						o.FailAt(m.ID+"#parameter-roles", m.Where(m.Body.Pos()), "the last two parameters of AdvanceCommitChainTailWithRevocation are no longer (ourOutputIndex, theirOutputIndex)")
+					}
 				}
 			}
 			g := p.Func(lw + "findOutputIndexesFromRemote")
@@ -487,61 +512,7 @@ func runC04(r *an.Run) {
 			}
 		})
 
-	r.Obl("breach-lookup-sees-persisted-secrets", "ROLE",
-		"the chain watcher refreshes the revocation store of its channel snapshot from disk before it classifies a spend: newChainSet calls RemoteRevocationStore successfully; since it discards the result, ChannelStateDB.RemoteRevocationStore must decode the stored revocation state into the channel it was given and return that channel's store; NewBreachRetribution looks the secret up in chanState.RevocationStore",
-		"the watcher holds a snapshot taken at start-up: without the refresh every state revoked since then is not recognised as a breach although its secret is on disk", 4,
-		func(o *an.Obl) {
-			f := p.Func("contractcourt.newChainSet")
-			calls := f.Calls(an.CalleeIs("chanstate.OpenChannel.RemoteRevocationStore"), false)
-			if need(o, f, "RemoteRevocationStore", calls, 1) {
-				mustPass(o, f, "RemoteRevocationStore", calls, an.OkErrNil, f.StrictSuccessReturnsOrNilPtr())
-				discarded := false
-				ast.Inspect(f.Body, func(n ast.Node) bool {
-					if as, ok := n.(*ast.AssignStmt); ok && len(as.Rhs) == 1 && as.Rhs[0] == calls[0].Node.(ast.Expr) {
-						if id, ok := as.Lhs[0].(*ast.Ident); ok && id.Name == "_" {
-							discarded = true
-						}
-					}
-					return true
-				})
-				o.Site("newChainSet discards the returned store: %v", discarded)
-				if discarded {
-					g := p.Func("channeldb.ChannelStateDB.RemoteRevocationStore")
-					ok := false
-					for _, lf := range append([]*an.Func{g}, g.Lits...) {
-						for _, s := range lf.Calls(an.CalleeIs("channeldb.fetchChanRevocationState"), false) {
-							a := lf.ArgCanon(s)
-							o.Site("%s decodes into %s", s.String(), a[1])
-							if a[1] == "$p0" {
-								ok = true
-							}
-						}
-					}
-					if !ok {
-						o.FailAt(g.ID+"#refreshes-caller", g.Where(g.Body.Pos()), "RemoteRevocationStore no longer decodes the stored revocation state into the channel it was given, but newChainSet relies on exactly that side effect")
-					}
-					for _, s := range g.StrictSuccessReturnsOrNilPtr() {
-						if c := g.Canon(s.Node.(*ast.ReturnStmt).Results[0]); c != "$p0.RevocationStore" {
-							o.FailAt(g.ID+"#returned-store", s.Where(), "RemoteRevocationStore returns %s", c)
-						}
-					}
-				}
-			}
-			nb := p.Func(lw + "NewBreachRetribution")
-			n := 0
-			for _, s := range nb.Calls(an.CalleeNamed("LookUp"), false) {
-				n++
-				if c := nb.Canon(s.Node.(*ast.CallExpr).Fun); c != "$p0.RevocationStore.LookUp" {
-					o.FailAt(nb.ID+"#lookup-store", s.Where(), "the revoked secret is looked up through %s", c)
-				}
-				if a := nb.ArgCanon(s); a[0] != "$p1" {
-					o.FailAt(nb.ID+"#lookup-height", s.Where(), "the revoked secret is looked up at %s, expected the broadcast state number", a[0])
-				}
-			}
-			if n != 1 {
-				o.FailAt(nb.ID+"#lookup", nb.Where(nb.Body.Pos()), "expected one RevocationStore.LookUp in NewBreachRetribution, found %d", n)
-			}
-		})
+	c04BreachLookup(r)
 
 	r.Obl("taproot-retribution-fields-mirror", "MIRROR",
 		"taprootBriefcaseFromRetInfo (store) and applyTaprootRetInfo (reload) move, per witness-type case, the same pairs (breached output field <-> briefcase field): commit/revoke control blocks, the two resolution blobs, the first-level tap tweak and the second-level tap tweak each to and from its own briefcase field",
@@ -753,27 +724,168 @@ func transferPairs(f *an.Func, item, box string) map[string][]string {
 }
 
 // revocationAcceptance: a counterparty secret advances the remote chain only
-// when the store accepted it and it opens the current revocation point.
+// when it opens the current revocation point and the store accepted it.
 // Shared by C04 (the state must be punishable) and C06 (inconsistent secrets
-// are rejected).
+// are rejected).  Since repair 3b9a88f the rule spans two functions: the point
+// comparison lives in LightningChannel.ReceiveRevocation, the store insertion,
+// the rotation of the two remote points and the durable advance in
+// OpenChannel.AdvanceCommitChainTailWithRevocation.
 func revocationAcceptance(r *an.Run) {
 	p := r.Prog
 	r.Obl("state-advance-needs-valid-secret", "GUARD",
-		"ReceiveRevocation reaches AdvanceCommitChainTail (and any write of RemoteCurrentRevocation/RemoteNextRevocation) only after RevocationStore.AddNextEntry accepted the secret and the commitment point derived from it equals the current remote revocation point",
-		"a state recorded as revoked without a valid secret cannot be punished", 4,
+		"ReceiveRevocation reaches the state advance (OpenChannel.AdvanceCommitChainTailWithRevocation; also any plain AdvanceCommitChainTail or write of RemoteCurrentRevocation/RemoteNextRevocation of its own) only where the commitment point derived from the revealed secret was compared equal to the current remote revocation point, and hands it the hash of that very secret and the message's NextRevocationKey; a plain advance or a rotation inside ReceiveRevocation additionally needs an accepted AddNextEntry there; inside AdvanceCommitChainTailWithRevocation the store's AddNextEntry receives the secret parameter and its success dominates the two revocation-point rotations and the Db.AdvanceCommitChainTail call (a store error leaves before anything is rotated or persisted); the rotation first assigns RemoteCurrentRevocation the previous RemoteNextRevocation, then RemoteNextRevocation the key parameter; nothing but ReceiveRevocation calls the method",
+		"a state recorded as revoked without a valid secret cannot be punished", 15,
 		func(o *an.Obl) {
 			f := p.Func(lw + "LightningChannel.ReceiveRevocation")
-			add := f.Calls(an.CalleeNamed("AddNextEntry"), false)
-			adv := f.Calls(an.CalleeIs("chanstate.OpenChannel.AdvanceCommitChainTail"), false)
-			writes := append(f.Assigns(an.Field("chanstate.OpenChannel", "RemoteCurrentRevocation", nil), false),
-				f.Assigns(an.Field("chanstate.OpenChannel", "RemoteNextRevocation", nil), false)...)
-			targets := append(append([]an.Site{}, adv...), writes...)
-			mustPass(o, f, "RevocationStore.AddNextEntry", add, an.OkErrNil, targets)
+			advR := f.Calls(an.CalleeIs("chanstate.OpenChannel.AdvanceCommitChainTailWithRevocation"), true)
+			adv := f.Calls(an.CalleeIs("chanstate.OpenChannel.AdvanceCommitChainTail"), true)
+			writes := append(f.Assigns(an.Field("chanstate.OpenChannel", "RemoteCurrentRevocation", nil), true),
+				f.Assigns(an.Field("chanstate.OpenChannel", "RemoteNextRevocation", nil), true)...)
 			eq := an.Truth(an.CallNamed("IsEqual", an.CallTo("input.ComputeCommitmentPoint", nil), an.FieldPath(nil, "RemoteCurrentRevocation")), true, "ComputeCommitmentPoint(secret).IsEqual(RemoteCurrentRevocation)")
-			guardedAll(o, f, targets, eq)
-			if len(writes) != 2 {
-				o.FailAt(f.ID+"#revocation-point-writes", f.Where(f.Body.Pos()), "expected the two revocation-point rotations, found %d writes", len(writes))
+			if len(advR)+len(adv) == 0 {
+				o.FailAt(f.ID+"#no-state-advance", f.Where(f.Body.Pos()), "ReceiveRevocation no longer advances the remote commitment chain (neither AdvanceCommitChainTailWithRevocation nor AdvanceCommitChainTail is called)")
 			}
+			targets := append(append(append([]an.Site{}, advR...), adv...), writes...)
+			guardedAll(o, f, targets, eq)
+			// the old shape: store, rotation and advance in ReceiveRevocation
+			// itself; then the store's verdict must dominate them here
+			if own := append(append([]an.Site{}, adv...), writes...); len(own) > 0 {
+				mustPass(o, f, "RevocationStore.AddNextEntry", f.Calls(an.CalleeNamed("AddNextEntry"), false), an.OkErrNil, own)
+			}
+			for _, s := range advR {
+				a := f.ArgCanon(s)
+				o.Site("%s(secret=%s, next=%s)", "AdvanceCommitChainTailWithRevocation", a[0], a[1])
+				if !reMatch(`(^|/)chainhash(/v2)?\.NewHash\(\$p0\.Revocation(\[:\])?\)(#0)?$`, a[0]) {
+					o.FailAt(f.ID+"#stored-secret", s.Where(), "the secret handed to the store is %s, expected the hash of the message's Revocation field (the one the commitment point was computed from)", a[0])
+				}
+				if a[1] != "$p0.NextRevocationKey" {
+					o.FailAt(f.ID+"#next-point", s.Where(), "the next revocation point handed on is %s, expected the message's NextRevocationKey", a[1])
+				}
+				for _, arg := range s.Node.(*ast.CallExpr).Args[:2] {
+					c04OperandsNotOverwritten(o, f, arg, "revocation message")
+				}
+				if c := f.Canon(s.Node.(*ast.CallExpr).Fun); c != "$recv.channelState.AdvanceCommitChainTailWithRevocation" {
+					o.FailAt(f.ID+"#advanced-channel", s.Where(), "the state advance goes to %s, expected the channel's own state", c)
+				}
+			}
+
+			// the chanstate half
+			m := p.Func("chanstate.OpenChannel.AdvanceCommitChainTailWithRevocation")
+			add := m.Calls(an.CalleeNamed("AddNextEntry"), true)
+			db := m.Calls(an.CalleeNamed("AdvanceCommitChainTail"), true)
+			cur := m.Assigns(an.Field("chanstate.OpenChannel", "RemoteCurrentRevocation", nil), true)
+			next := m.Assigns(an.Field("chanstate.OpenChannel", "RemoteNextRevocation", nil), true)
+			if !needExactly(o, m, "AddNextEntry call", add, 1) || !needExactly(o, m, "Db.AdvanceCommitChainTail call", db, 1) {
+				return
+			}
+			if len(cur) != 1 || len(next) != 1 {
+				o.FailAt(m.ID+"#revocation-point-writes", m.Where(m.Body.Pos()), "expected the two revocation-point rotations (one write of RemoteCurrentRevocation, one of RemoteNextRevocation), found %d and %d", len(cur), len(next))
+				return
+			}
+			if c, a := m.Canon(add[0].Node.(*ast.CallExpr).Fun), m.ArgCanon(add[0]); c != "$recv.RevocationStore.AddNextEntry" || len(a) != 1 || a[0] != "$p0" {
+				o.FailAt(m.ID+"#stored-secret", add[0].Where(), "the store insertion is %s(%v), expected $recv.RevocationStore.AddNextEntry($p0): the channel's own store receives the secret parameter", c, a)
+			}
+			mTargets := append(append(append([]an.Site{}, cur...), next...), db...)
+			mustPass(o, m, "RevocationStore.AddNextEntry", add, an.OkErrNil, mTargets)
+			failureStops(o, m, "RevocationStore.AddNextEntry", add, an.OkErrNil, mTargets, "the rotation / the durable advance")
+			rot := func(s an.Site, lhs, want, what string) {
+				as, ok := s.Node.(*ast.AssignStmt)
+				if !ok || len(as.Lhs) != 1 || len(as.Rhs) != 1 || as.Tok.String() != "=" {
+					o.FailAt(m.ID+"#rotation-shape-"+what, s.Where(), "unexpected form of the rotation: %s", an.Text(s.Node))
+					return
+				}
+				l, c := m.Canon(as.Lhs[0]), m.Canon(as.Rhs[0])
+				o.Site("%s: %s = %s", m.ID, l, c)
+				if l != lhs || c != want {
+					o.FailAt(m.ID+"#rotation-"+what, s.Where(), "the rotation assigns %s = %s, expected %s = %s", l, c, lhs, want)
+				}
+			}
+			rot(cur[0], "$recv.RemoteCurrentRevocation", "$recv.RemoteNextRevocation", "current")
+			rot(next[0], "$recv.RemoteNextRevocation", "$p1", "next")
+			// `$recv.RemoteNextRevocation` names the field: it is the previous
+			// next point only while the second rotation has not happened
+			before(o, m, "the rotation of RemoteCurrentRevocation", cur, "the rotation of RemoteNextRevocation", next)
+			if m.Graph().Reach(next[0].V, nil, nil)[cur[0].V] {
+				o.FailAt(m.ID+"#rotation-order", cur[0].Where(), "RemoteCurrentRevocation is assigned after RemoteNextRevocation was overwritten: it receives the new key, not the previous next point")
+			}
+			before(o, m, "the rotation", next, "the durable advance", db)
+			notReassigned(o, m, "revocation", "nextRevocation")
+			for _, prm := range m.Params(true) {
+				if prm != nil && (prm == m.Recv() || prm.Name() == "revocation" || prm.Name() == "nextRevocation") {
+					for _, st := range c04Overwrites(m, prm) {
+						o.FailAt(m.ID+"#overwrites-"+prm.Name(), m.Where(st.Pos()), "%s overwrites %s (%s); the rule identifies it by its binding", m.ID, prm.Name(), an.Text(st))
+					}
+				}
+			}
+			// who may call it: the method stores whatever it is given
+			w := r.Wide()
+			w.WhoMay(o, "chanstate.OpenChannel.AdvanceCommitChainTailWithRevocation",
+				w.RefsTo(w.Method("chanstate", "OpenChannel", "AdvanceCommitChainTailWithRevocation"), true),
+				map[string]string{lw + "LightningChannel.ReceiveRevocation": "compares the commitment point first"},
+				[]string{lw + "LightningChannel.ReceiveRevocation"})
 		})
 
+}
+
+// c04BreachLookup: the chain watcher classifies a spend with the revocation
+// store as it is on disk, not as it was when the watcher started.  Shared by
+// C04 (the breach is recognised) and C06 (the received secrets are reproduced
+// where they are needed; seeded change C06/h).
+func c04BreachLookup(r *an.Run) {
+	p := r.Prog
+	r.Obl("breach-lookup-sees-persisted-secrets", "ROLE",
+		"the chain watcher refreshes the revocation store of its channel snapshot from disk before it classifies a spend: newChainSet calls RemoteRevocationStore successfully; since it discards the result, ChannelStateDB.RemoteRevocationStore must decode the stored revocation state into the channel it was given and return that channel's store; NewBreachRetribution looks the secret up in chanState.RevocationStore",
+		"the watcher holds a snapshot taken at start-up: without the refresh every state revoked since then is not recognised as a breach although its secret is on disk", 4,
+		func(o *an.Obl) {
+			f := p.Func("contractcourt.newChainSet")
+			calls := f.Calls(an.CalleeIs("chanstate.OpenChannel.RemoteRevocationStore"), false)
+			if need(o, f, "RemoteRevocationStore", calls, 1) {
+				mustPass(o, f, "RemoteRevocationStore", calls, an.OkErrNil, f.StrictSuccessReturnsOrNilPtr())
+				discarded := false
+				ast.Inspect(f.Body, func(n ast.Node) bool {
+					if as, ok := n.(*ast.AssignStmt); ok && len(as.Rhs) == 1 && as.Rhs[0] == calls[0].Node.(ast.Expr) {
+						if id, ok := as.Lhs[0].(*ast.Ident); ok && id.Name == "_" {
+							discarded = true
+						}
+					}
+					return true
+				})
+				o.Site("newChainSet discards the returned store: %v", discarded)
+				if discarded {
+					g := p.Func("channeldb.ChannelStateDB.RemoteRevocationStore")
+					ok := false
+					for _, lf := range append([]*an.Func{g}, g.Lits...) {
+						for _, s := range lf.Calls(an.CalleeIs("channeldb.fetchChanRevocationState"), false) {
+							a := lf.ArgCanon(s)
+							o.Site("%s decodes into %s", s.String(), a[1])
+							if a[1] == "$p0" {
+								ok = true
+							}
+						}
+					}
+					if !ok {
+						o.FailAt(g.ID+"#refreshes-caller", g.Where(g.Body.Pos()), "RemoteRevocationStore no longer decodes the stored revocation state into the channel it was given, but newChainSet relies on exactly that side effect")
+					}
+					for _, s := range g.StrictSuccessReturnsOrNilPtr() {
+						if c := g.Canon(s.Node.(*ast.ReturnStmt).Results[0]); c != "$p0.RevocationStore" {
+							o.FailAt(g.ID+"#returned-store", s.Where(), "RemoteRevocationStore returns %s", c)
+						}
+					}
+				}
+			}
+			nb := p.Func(lw + "NewBreachRetribution")
+			n := 0
+			for _, s := range nb.Calls(an.CalleeNamed("LookUp"), false) {
+				n++
+				if c := nb.Canon(s.Node.(*ast.CallExpr).Fun); c != "$p0.RevocationStore.LookUp" {
+					o.FailAt(nb.ID+"#lookup-store", s.Where(), "the revoked secret is looked up through %s", c)
+				}
+				if a := nb.ArgCanon(s); a[0] != "$p1" {
+					o.FailAt(nb.ID+"#lookup-height", s.Where(), "the revoked secret is looked up at %s, expected the broadcast state number", a[0])
+				}
+			}
+			if n != 1 {
+				o.FailAt(nb.ID+"#lookup", nb.Where(nb.Body.Pos()), "expected one RevocationStore.LookUp in NewBreachRetribution, found %d", n)
+			}
+		})
 }
